@@ -93,6 +93,10 @@ func c01(args []string) error {
 			sb = b
 		}
 		nsteps := 1 + r.Intn(8)
+		dupSample := !big && ninit >= 2 && r.Intn(10) == 0
+		if dupSample && nsteps < 3 {
+			nsteps = 3
+		}
 		trimMap := map[string]string{}
 		curPolicy := align.IGNORE_NONE
 		steps := []string{}
@@ -112,6 +116,18 @@ func c01(args []string) error {
 			}
 			if !big && sidx > 0 && r.Intn(12) == 0 {
 				kind = 101 // renames of names that several rows may share by now
+			}
+			// a non-default duplicate policy, rows renamed to shared names, then every row drawn by Sample: the sample is a
+			// fresh container with the default policy, no drawn row may be dropped
+			if dupSample {
+				switch sidx {
+				case 0:
+					kind = 3
+				case 1:
+					kind = 100
+				case 2:
+					kind = 200
+				}
 			}
 			curL := L
 			if isAlign && al.Length() >= 0 {
@@ -150,6 +166,9 @@ func c01(args []string) error {
 				f = func() error { return sb.AddSequence(n, s, "") }
 			case 3:
 				p := []int{align.IGNORE_NONE, align.IGNORE_NAME, align.IGNORE_SEQUENCE, 7}[r.Intn(4)]
+				if dupSample && sidx == 0 {
+					p = []int{align.IGNORE_NAME, align.IGNORE_SEQUENCE}[r.Intn(2)]
+				}
 				opterm = "BPolicy " + coqZ(p)
 				curPolicy = p
 				f = func() error { sb.IgnoreIdentical(p); return nil }
@@ -194,10 +213,13 @@ func c01(args []string) error {
 				it := []string{}
 				for q := 0; q < sb.NbSequences(); q++ {
 					nm, _ := sb.GetSequenceNameById(q)
-					if r.Intn(2) == 0 {
+					if r.Intn(2) == 0 && !dupSample {
 						continue
 					}
 					v := []string{"a", "b", "s1", "ab"}[r.Intn(4)]
+					if dupSample {
+						v = []string{"a", "b"}[r.Intn(2)]
+					}
 					if _, ok := m[nm]; ok {
 						continue
 					}
@@ -327,6 +349,9 @@ func c01(args []string) error {
 				f = func() error { return sb.SetSequenceChar(ii, jj, c) }
 			default:
 				nb := boundaryInt(r, sb.NbSequences())
+				if kind == 200 {
+					nb = sb.NbSequences()
+				}
 				seed := r.Int63()
 				rand.Seed(seed)
 				perm := rand.Perm(sb.NbSequences())
